@@ -261,8 +261,11 @@ def run(plan: dict) -> dict:
         model = None
         if fault and inj is not None:
             E = exc_class(fault.get("exc", "SimFault"))
-            k = int(fault["k"]) if "k" in fault else int(float(fault["k_frac"]) * int(op.get("n_hint", 12000)))
-            inj.start(k, lambda: E("sim: injected"))
+            if "region" in fault:
+                inj.start(None, lambda: E("sim: injected"), region=tuple(fault["region"]))
+            else:
+                k = int(fault["k"]) if "k" in fault else int(float(fault["k_frac"]) * int(op.get("n_hint", 12000)))
+                inj.start(k, lambda: E("sim: injected"))
         try:
             model = to_onnx(fn, spec, **kw)
         except BaseException as e:  # noqa: BLE001
@@ -504,7 +507,10 @@ def gen_history(seed: int, run: int, n_ops: int) -> list[dict]:
                 program["input_params"] = {"deterministic": True}
             op: dict = {"op": "convert", "program": program}
             if r.random() < 0.12:
-                op["fault"] = {"k_frac": round(r.random(), 6), "exc": r.choice(["SimFault", "SimInterrupt"])}
+                if r.random() < 0.5:
+                    op["fault"] = {"k_frac": round(r.random(), 6), "exc": r.choice(["SimFault", "SimInterrupt"])}
+                else:
+                    op["fault"] = {"region": [r.choice(["_lower_and_call", "wrapped", "_activate_full_plugin_worlds_for_body", "_wrapped"]), r.randrange(0, 60)], "exc": r.choice(["SimFault", "SimInterrupt"])}
             ops.append(op)
     return ops
 
